@@ -115,6 +115,19 @@ pub fn corpus() -> Result<Vec<Sample>, String> {
             let mut alert_first = vec![0x15, 0x03, 0x03, 0x00, 0x02, 0x01, 0x00];
             alert_first.extend_from_slice(&hello);
             v.push(Sample { name: "alert-record-first".into(), random: None, bytes: alert_first, must_find: false });
+            // the ClientHello fragmented over TLS records with a first fragment too short to hold the
+            // random: the value cannot be taken from the first record (and never from bytes 11..43 of
+            // the stream, which now contain a record header)
+            for first in [4usize, 20, 37] {
+                let hs = &hello[5..];
+                let mut frag = vec![0x16, 0x03, 0x01];
+                frag.extend_from_slice(&(first as u16).to_be_bytes());
+                frag.extend_from_slice(&hs[..first]);
+                frag.extend_from_slice(&[0x16, 0x03, 0x01]);
+                frag.extend_from_slice(&((hs.len() - first) as u16).to_be_bytes());
+                frag.extend_from_slice(&hs[first..]);
+                v.push(Sample { name: format!("record-fragmented-first{first}"), random: Some(hello[11..43].to_vec()), bytes: frag, must_find: false });
+            }
             // a ServerHello-typed handshake message whose bytes 11..43 look like a random
             let mut not_ch = hello.clone();
             not_ch[5] = 0x02;
